@@ -181,7 +181,34 @@ fn module_of(p: &Program, r: Root) -> usize {
     }
 }
 
+/// Identifiers that look like keywords in another letter case: ordinary names of the language.
+pub const LOOKALIKES: [&str; 20] = [
+    "Head", "GET", "Options", "Put", "Delete", "Patch", "POST", "Let", "Res", "Use", "As", "On", "Rec", "Num", "Str", "Media", "Status", "Headers",
+    "Int", "Bool",
+];
+
 fn fresh(p: &Program, prefix: &str, rng: &mut Rng) -> String {
+    if rng.chance(1, 5) {
+        let n = (*rng.pick(&LOOKALIKES)).to_owned();
+        let mut used = p.decls.iter().any(|d| d.name == n || d.params.contains(&n));
+        for d in &p.decls {
+            d.rhs.visit(&mut |e| match e {
+                E::Rec { binder, .. } if *binder == n => used = true,
+                E::Var { qual: Some(q), .. } if *q == n => used = true,
+                _ => {}
+            });
+        }
+        for m in &p.modules {
+            for s in &m.stmts {
+                if matches!(s, Stmt::Use { qual: Some(q), .. } if *q == n) {
+                    used = true;
+                }
+            }
+        }
+        if !used {
+            return n;
+        }
+    }
     loop {
         let n = format!("{prefix}{}", rng.below(100000));
         let used = p.decls.iter().any(|d| d.name == n || d.params.contains(&n));
